@@ -132,6 +132,39 @@ func historyRequests(c *run.Ctx) []histReq {
 			return sqls(rn.Run(ch, &req, 20*time.Second))
 		}})
 	}
+	// sibling queries: the same outer form around different operands (what a canonical text that drops part of the
+	// query would make one entry of)
+	for k, q := range []string{
+		`topk(2, quantile_over_time(0.5, {app="alpha"} | json | unwrap n [10s]) by (lvl2))`,
+		`topk(2, quantile_over_time(0.9, {app="bravo"} | logfmt | unwrap v [1m]))`,
+		`topk(2,quantile_over_time(0.99,{env="delta"}|json|unwrap n[30s]) by (app))`,
+		`bottomk(1, quantile_over_time(0.5, {app="alpha"} | json | unwrap n [10s]))`,
+		`bottomk(1, quantile_over_time(0.5, {app="carol"} | json | unwrap n [20s]))`,
+		`topk(2, sum by (app) (rate({app="alpha"} [1m])))`,
+		`topk(2, sum by (app) (rate({app="bravo"} [1m])))`,
+		`topk(2, avg_over_time({app="alpha"} | json | unwrap n [10s]))`,
+		`topk(2, avg_over_time({app="bravo"} | json | unwrap n [10s]))`,
+		`sum by (app) (quantile_over_time(0.5, {app="alpha"} | json | unwrap n [10s]))`,
+		`sum by (app) (quantile_over_time(0.9, {app="bravo"} | json | unwrap n [10s]))`,
+		`topk(2, quantile_over_time(0.5, {app="alpha"} | json | unwrap n [10s])) > 1`,
+		`topk(2, quantile_over_time(0.5, {app="bravo"} | json | unwrap n [5s])) > 1`,
+		// the same without a parser stage: translated to one statement, nothing runs in the server
+		`topk(2, quantile_over_time(0.5, {app="alpha"} | json n="n" | unwrap n [10s]) by (app))`,
+		`topk(2, quantile_over_time(0.99, {env="delta"} | json n="n" | unwrap n [5s]) by (env))`,
+		`bottomk(2, quantile_over_time(0.5, {app="alpha"} | json n="n" | unwrap n [10s]) by (app))`,
+		`bottomk(2, quantile_over_time(0.9, {app="bravo"} | json m="n" | unwrap m [20s]) by (app))`,
+		`topk(2, quantile_over_time(0.5, {app="alpha"} | unwrap num [10s]) by (env))`,
+		`topk(2, quantile_over_time(0.9, {app="bravo"} | unwrap num [1m]))`,
+		`bottomk(1, quantile_over_time(0.5, {app="alpha"} | unwrap num [10s]))`,
+		`bottomk(1, quantile_over_time(0.75, {env="delta"} | unwrap num [20s]) by (app))`,
+		`topk(2, quantile_over_time(0.5, {app="alpha"} | unwrap num [10s])) > 1`,
+		`topk(2, quantile_over_time(0.5, {app="carol"} | unwrap num [5s])) > 1`,
+	} {
+		q := q
+		out = append(out, histReq{fmt.Sprintf("logql sibling %d %s", k, q), func(tq *traceRig, rn *logq.Runner, ch *chsql.DB) []string {
+			return sqls(rn.RunText(ch, q, start, start+300e9, 5*time.Second, 100, 20*time.Second))
+		}})
+	}
 	histDB = db
 	return out
 }
